@@ -307,3 +307,20 @@ def tlc_simulate(module, cfg, *, num, depth, seed, timeout=600):
         return out
     finally:
         shutil.rmtree(d, ignore_errors=True)
+
+
+def run_cases(module, tier, seed, args):
+    """Ask a driver module for its case list (runs under the repository interpreter)."""
+    d = tempfile.mkdtemp(prefix='cases_')
+    try:
+        out = os.path.join(d, 'cases.json')
+        code = ('import json,sys,importlib; m=importlib.import_module("harness.drivers.%s"); '
+                'json.dump(m.cases(%r,%d,json.loads(%r)), open(%r,"w"))' % (module, tier, seed, json.dumps(args), out))
+        env = dict(os.environ, PYTHONPATH=f'{REPO}:{VERIF}', PYTHONHASHSEED='0', PYTHONWARNINGS='ignore')
+        env[GUARD] = '1'
+        p = subprocess.run([PY, '-c', code], cwd=VERIF, env=env, stdout=subprocess.PIPE, stderr=subprocess.STDOUT, text=True)
+        if p.returncode:
+            raise MachineryError(p.stdout[-3000:])
+        return json.load(open(out))
+    finally:
+        shutil.rmtree(d, ignore_errors=True)
